@@ -19,7 +19,7 @@ import (
 // client abort.
 
 var resCliFaults = []string{"resume-honest", "decline", "resume-other-offered-suite", "resume-unoffered-suite", "resume-other-version", "resume-wrong-master", "resume-session-not-offered"}
-var resCliReach = []string{"client-resumed-with-reference-server", "client-fell-back", "client-refused-altered-session", "gm-mode", "tls-mode", "ticket-offered", "ticket-not-offered"}
+var resCliReach = []string{"client-resumed-with-reference-server", "client-fell-back", "client-refused-altered-session", "gm-mode", "tls-mode", "ticket-offered"}
 
 func init() {
 	register(Family{Name: "tls-resumption-client", Prop: "C16", ID: 1602, Weight: 1, FaultNames: resCliFaults, ReachNames: resCliReach, Run: runResumptionClient})
@@ -198,7 +198,6 @@ func runResumptionClient(c *simkit.Choice, r *simkit.Rec) {
 	if !offered {
 		// the client did not offer the ticket it was given: nothing to resume; the
 		// reference server then performs a full handshake, which must work
-		r.Reach(idx(resCliReach, "ticket-not-offered"))
 		if o2.cerr != nil || o2.serr != nil || o2.st.DidResume {
 			r.Violate("connection-failed", site, fmt.Sprintf("client offered no ticket, full handshake expected: client=%v reference=%v resumed=%v", o2.cerr, o2.serr, o2.st.DidResume))
 		}
